@@ -31,7 +31,8 @@ Record JInv (s : state) : Prop := {
   ju_enodup : NoDup (parents s);
   ju_jobs : forall x, In x (jobs s) -> job_ok s x;
   ju_staged : forall u, In u (updates s) -> u_committed u = false ->
-               root_staged s (u_batch u) (u_id u) = n_jobs_of s (u_batch u) (u_id u) }.
+               root_staged s (u_batch u) (u_id u) = n_jobs_of s (u_batch u) (u_id u);
+  ju_ufirst : forall u, In u (updates s) -> u_id u = 1 -> u_start_job u = 1 }.
 
 Record GInv (s : state) : Prop := {
   gr_root : forall g, In g (groups s) -> root_once s (g_batch g) (g_id g);
@@ -281,7 +282,7 @@ Lemma DInv_cleanup_staging s : DInv s -> DInv (fst (do_cleanup_staging s)).
 Proof.
   intros D. pose proof D as D0. apply DInv_split in D. destruct D as (J & G & X). apply DInv_split.
   split; [|split].
-  - destruct J as [J1 J2 J3 J4 J5 J6 J7 J8 J9].
+  - destruct J as [J1 J2 J3 J4 J5 J6 J7 J8 J9 J10].
     constructor; try assumption.
     intros u Hu Hc. rewrite root_staged_cleanup; [apply (J9 u Hu Hc)|].
     change (find_update (fst (do_cleanup_staging s))) with (find_update s) in *.
@@ -591,7 +592,7 @@ Lemma JInv_add_update s n :
   end ->
   JInv (s <| updates ::= fun l => l ++ [n] |>).
 Proof.
-  intros J A Hunc Hnj Hlast. pose proof J as [J1 J2 J3 J4 J5 J6 J7 J8 J9].
+  intros J A Hunc Hnj Hlast. pose proof J as [J1 J2 J3 J4 J5 J6 J7 J8 J9 J10].
   set (s' := s <| updates ::= fun l => l ++ [n] |>).
   assert (Eu : updates s' = updates s ++ [n]) by reflexivity.
   assert (Hc : forall b u, committed s' b u = committed s b u) by (intros; apply (committed_app_uncommitted s s' n); auto).
@@ -637,6 +638,10 @@ Proof.
     change (root_staged s' (u_batch n) (u_id n)) with (root_staged s (u_batch n) (u_id n)).
     change (n_jobs_of s' (u_batch n) (u_id n)) with (n_jobs_of s (u_batch n) (u_id n)).
     rewrite (a_staged0 _ A _ _ Hnone), (n_jobs_of_zero s _ _ J Hnone). reflexivity.
+  - rewrite Eu. intros u Hu Hid. apply in_app_or in Hu. destruct Hu as [Hu|[<-|[]]]; [apply (J10 u Hu Hid)|].
+    destruct (last_update s (u_batch n)) as [l|].
+    + destruct LS as (Hl & _ & _). destruct Hlast as [E _]. pose proof (J3 l Hl). lia.
+    + tauto.
 Qed.
 
 Lemma DAux_add_update s n :
